@@ -254,6 +254,36 @@ def main():
         if missing_vals:
             V.violation('rule:SUB1:' + key, f'no constructed column carries the joined value exactly on the rows of selector value(s) {missing_vals[:3]}', {'key': key})
     V.count(evaluations=len(big_items), nontrivial=len(big_items), traces=len(big_items))
+
+    # ---- several multi-value features in one run (--explode_multivalue_features "m1;m2") that share tokens
+    import re as _re
+    mv_items = []
+    for k_ in range(3 if tier == 'quick' else 12):
+        vals_ = ['a', 'b', 'a,b', 'c-a', '', 'b,c', 'c']
+        rows = [[rng.choice(vals_), rng.choice(vals_), str(i_ % 2)] for i_ in range(14)]
+        order_ = rng.choice(['m1;m2', 'm2;m1'])
+        mv_items.append({'columns': ['m1', 'm2', 'label'], 'rows': rows, 'args': {'heuristic': 'MI-numba-randomized', 'label_column': 'label', 'explode_multivalue_features': order_}})
+    mg = PC.pipe_eval([{'op': 'batch_features', 'items': mv_items}], modules=['pipe_ops'])[0]
+    if mg is None or 'ok' not in mg:
+        V.violation('raises:two-multivalue', f'compute_batch_ranking failed: {PC.failure_text(mg)}', {'items': mv_items[:1]})
+    else:
+        for it_, ob in zip(mv_items, mg['ok']):
+            key = f'two multi-value features {it_["args"]["explode_multivalue_features"]} rows={it_["rows"]}'
+            if 'error' in ob:
+                V.violation('raises:' + key, ob['error'], it_)
+                continue
+            newcols = {c_: ob['values'][c_] for c_ in ob['columns'][3:]}
+            for fi, fn in enumerate(('m1', 'm2')):
+                col = [r_[fi] for r_ in it_['rows']]
+                toks = {t_ for v_ in col for t_ in _re.split('[,-]', v_)} - {''}
+                for t_ in sorted(toks):
+                    want = [t_ in _re.split('[,-]', v_) for v_ in col]
+                    named = newcols.get(f'MULTIEX-{fn}-{t_}')
+                    ok_named = named is not None and [x_ == '1' for x_ in named] == want
+                    if not ok_named and not (named is None and any([x_ == '1' for x_ in cv_] == want for cv_ in newcols.values())):
+                        V.violation(f'rule:MULTIEX:{key} feature={fn} token={t_}', f'indicator of token {t_!r} in {fn}: {named}; the token is contained exactly on rows {[i_ for i_, w_ in enumerate(want) if w_]}', it_)
+                        break
+        V.count(evaluations=len(mv_items), nontrivial=len(mv_items), traces=len(mv_items))
     V.coverage['exhaustive'] = True
     return V.finish()
 
